@@ -16,10 +16,14 @@ PName(j) == "p" \o ToString(j)
 MName(k) == "m" \o ToString(k)
 Home(form) == IF form = "self" THEN "t" ELSE "lib"
 
-MacroDef(k, home) == MacroS(MName(k), [j \in 1..k |-> PName(j)],
-                            <<Text(MName(k) \o "(")>>
-                            \o [j \in 1..(2 * k) |-> IF j % 2 = 1 THEN PrintS(NameE(PName((j + 1) \div 2))) ELSE Text(",")]
-                            \o <<Text(")"), PrintS(CallE("nul", <<StrE(home)>>))>>)
+(* the macros with an even number of parameters first capture what they print about them (set ... endset) and then print the
+   capture: a macro may be called while its caller is itself capturing *)
+MacroDef(k, home) ==
+  LET ps == [j \in 1..(2 * k) |-> IF j % 2 = 1 THEN PrintS(NameE(PName((j + 1) \div 2))) ELSE Text(",")] IN
+  MacroS(MName(k), [j \in 1..k |-> PName(j)],
+         <<Text(MName(k) \o "(")>>
+         \o (IF k % 2 = 0 THEN <<SetCap("held", ps), PrintS(NameE("held"))>> ELSE ps)
+         \o <<Text(")"), PrintS(CallE("nul", <<StrE(home)>>))>>)
 CallM(form, mname, args) ==
   CASE form = "self" -> AttrCall(NameE("_self"), mname, args)
     [] form = "alias" -> AttrCall(NameE("L"), mname, args)
